@@ -14,7 +14,7 @@ its normalised (white-space and line-number independent) text:
   cast                                              `as <integer type / char>`
   parse_quote format_ident ident_new                macros/functions of syn/quote that panic on bad input
   vecop                                             `.remove( .swap_remove( .split_at( .split_off( .drain(
-                                                     .copy_from_slice( .truncate(`
+                                                     .copy_from_slice( .truncate(` and syn's `.push_value( .push_punct(`
   recursion                                         a `fn` that calls itself by name (unbounded unless argued)
 
 `generate()` rewrites coq/theories/Gen/PanicSiteList.v (a list of records) and returns the sites.
@@ -37,7 +37,8 @@ QUOTE_MACROS = {"quote", "quote_spanned", "parse_quote", "parse_quote_spanned"}
 PANIC_MACROS = {"unreachable": "unreachable", "unimplemented": "unimplemented", "todo": "todo", "panic": "panic",
                 "assert": "assert", "assert_eq": "assert", "assert_ne": "assert", "debug_assert": "assert",
                 "debug_assert_eq": "assert", "debug_assert_ne": "assert"}
-VECOPS = {"remove", "swap_remove", "split_at", "split_at_mut", "split_off", "drain", "copy_from_slice", "truncate"}
+VECOPS = {"remove", "swap_remove", "split_at", "split_at_mut", "split_off", "drain", "copy_from_slice", "truncate",
+          "push_value", "push_punct"}      # the last two: syn::punctuated::Punctuated asserts its comma discipline
 # same-named inner calls of these dispatch on the type of a component (finite type structure), not on `Self`
 DELEGATING_TRAIT_METHODS = {"parse", "to_tokens", "next", "default", "from", "into", "fmt", "eq", "hash", "clone"}
 INT_TYPES = {"u8", "u16", "u32", "u64", "u128", "usize", "i8", "i16", "i32", "i64", "i128", "isize", "char"}
@@ -524,7 +525,7 @@ def generate(path=None):
     sites = inventory()
     path = path or os.path.join(common.COQ, "theories", "Gen", "PanicSiteList.v")
     lines = [
-        "(* GENERATED by tools/lib/c18_panic_sites.py from %s/impl/src -- do not edit. *)" % common.REPO,
+        "(* GENERATED by tools/lib/c18_panic_sites.py from <repo>/impl/src -- do not edit. *)",
         "From Coq Require Import List String.",
         "Import ListNotations.",
         "Local Open Scope string_scope.",
